@@ -34,6 +34,9 @@ CHECKS = {
  "C08": ("model_checking", BFS + "; fix-point over (owned, head-room, size, capacity, attached) of two Buffers",
          "every reachable combination of ownership, head-room, size and capacity (sizes up to 6/9) with every operation incl. attach mixed with owning operations; terminator and bounds decided on every transition (ASan)",
          "byte values are data only (canonical-state argument); self arguments excluded", "DESIGN.md §4 C08"),
+ "C15": ("exploration", "exhaustive enumeration of token strings / value trees / symbol strings on the real parser, serialiser and comment stripper under ASan",
+         "every token string up to 5 (6) tokens over a 32-token alphabet, every value tree up to 4 (5) nodes, every stripComments input up to 8 (10) symbols; totality, bounds, error position, round trip and comment removal are decided on each",
+         "alphabets and sizes are bounded; Variant == decides tree equality", "DESIGN.md §4 C15"),
  "C17": ("exploration", "exhaustive enumeration of message length x chunking shapes on the real code vs hashlib/hmac",
          "every length 0..300 (600 thorough) x 4 content generators, every 2-way and (bounded) 3-way chunking, hasher reuse, "
          "HMAC for every key length 0..200: the padding/carry/key-normalisation logic depends on lengths only, so the shape space is exhausted",
